@@ -12,7 +12,7 @@ abbrev Bytes := List Byte
 /-- The errors the model can produce: what CPython raises, or the library's own codes. -/
 inductive Err where
   | structError | assertion | valueError | keyError | indexError | unicodeError
-  | typeError | overflowError | hdr | foot | timeout | unbound
+  | typeError | overflowError | hdr | foot | timeout | unbound | attributeError
   deriving DecidableEq, Repr, Inhabited
 
 deriving instance DecidableEq for Except
@@ -21,7 +21,7 @@ def Err.name : Err → String
   | .structError => "struct" | .assertion => "assert" | .valueError => "value"
   | .keyError => "key" | .indexError => "index" | .unicodeError => "unicode"
   | .typeError => "type" | .overflowError => "overflow" | .hdr => "HDR" | .foot => "FOOT"
-  | .timeout => "timeout" | .unbound => "unbound"
+  | .timeout => "timeout" | .unbound => "unbound" | .attributeError => "attr"
 
 /-- `n` bytes, least significant first, of `v mod 256^n`. -/
 def leBytes : Nat → Nat → Bytes
